@@ -10,11 +10,16 @@ Tie: H -- the real `xrspatial.zonal.stats` (NumPy backend, DataFrame and DataArr
 user reducers) against the Lean driver on the same rasters; the permutation `np.argsort` really
 returned is handed to the model and checked against the assumed contract of argsort.
 Oracle (search): group-by in plain Python over exact fractions, written from the property text.
+
+Layer T3: stream `il:strides` -- the ILang program `Gen.IL.strides` (generated statement by statement from `_strides`; the subject
+of the refinement theorems `il_strides_refines` / `il_strides_eq_model` / `il_zone_breaks`) is run by the Lean driver and compared
+exactly (result array, both inputs after the call) with the numba-compiled `_strides` of /repo on generated arrays (il_corr.py).
 """
 import math
 
 import numpy as np
 
+import il_corr
 import zonal_common as Z
 from common import Driver, tok
 
@@ -243,6 +248,8 @@ def run(r, scale=1):
         check_scale(r, c)
     compare_with_model(r, pending)
     strides_stream(r, 60 if r.tier == "quick" else 600)
+    # layer T3: the generated ILang program of `_strides` (subject of il_strides_refines) against the numba function
+    il_corr.stream(r, ["strides"], int((600 if r.tier == "quick" else 6000) * scale))
     malformed(r)
 
 
@@ -254,6 +261,10 @@ def search(r):
 
 def replay(r, body):
     c = body["case"]
+    if "prog" in c:                       # a case of the il:strides stream (translator validation, layer T3)
+        bad = il_corr.replay_case(c)
+        print("still disagrees" if bad else "does not fail on the current tree")
+        return bad
     kind = c.get("kind", "table")
     if kind == "malformed":
         malformed(r)
